@@ -16,7 +16,7 @@ def gen_case(rng):
     pl = list(rng.choice(common.LABEL_POOLS))
     rng.shuffle(pl)
     labels = pl[:4]
-    kind = rng.choice(["cmp", "cmp", "gate", "reduce"])
+    kind = rng.choice(["cmp", "cmp", "gate", "reduce", "symcons"])
     case = {"spin": spin, "labels": labels, "kind": kind, "c": rng.choice(CVALS),
             "objective": cs.gen_poly(rng, labels[:3], maxdeg=2, maxterms=2, coefs=(-2, 1, 3)) if rng.random() < 0.5 else None}
     if kind == "cmp":
@@ -31,6 +31,12 @@ def gen_case(rng):
             b, brec, bkind = cs.choose_bounds(rng, P, spin)
             steps.append({"P": P, "rel": rel, "lt": lt, "bounds": b})
         case["steps"] = steps
+    elif kind == "symcons":
+        # the constrained polynomial itself carries a symbol (second symbol `s`, substituted together with the weight); its shape
+        # avoids every special-case branch for all substituted values, and explicit bounds (valid at the substituted value) are given
+        case["c"] = rng.choice([(2, 1), (3, 1)])
+        case["rel"] = rng.choice(cs.RELS)
+        case["sympos"] = rng.randrange(3)
     elif kind == "gate":
         case["spin"] = False
         gate = rng.choice(cs.GATES)
@@ -64,6 +70,24 @@ def build(case, lam):
             kw["deg"] = case["deg"]
         return getattr(M, "to_" + case["target"])(**kw)
     H = (qv.PCSO if spin else qv.PCBO)(case["objective"] or {})
+    if case["kind"] == "symcons":
+        import sympy
+        labs = case["labels"][:3]
+        cnum, cden = case["c"]
+        numeric = not hasattr(lam, "free_symbols")
+        sval = cnum if numeric else sympy.Symbol("s")
+        coefs = [1, 1, 1]
+        coefs[case["sympos"]] = sval
+        P = {(l,): co for l, co in zip(labs, coefs)}
+        P[()] = -2
+        Pnum = {(l,): (cnum if i == case["sympos"] else 1) for i, l in enumerate(labs)}
+        Pnum[()] = -2
+        bounds = cs.true_extrema(Pnum, spin)
+        kw = {"lam": lam, "bounds": bounds}
+        if case["rel"] != "eq":
+            kw["log_trick"] = True
+        getattr(H, "add_constraint_%s_zero" % case["rel"])(P, **kw)
+        return H
     if case["kind"] == "cmp":
         for st in case["steps"]:
             kw = {"lam": lam, "bounds": st["bounds"]}
@@ -86,7 +110,7 @@ def run_case(case, cid):
     cnum, cden = case["c"]
     cval = cnum if cden == 1 else cnum / cden
     rec = {"id": cid, "spin": case["spin"], "cnum": cnum, "cden": cden, "den": 1, "sym": [], "affine": False, "subbed": [], "direct": [],
-           "type_sym": "", "type_subbed": "", "type_direct": "", "cons_subbed": [], "cons_direct": [], "orig_unchanged": True, "raised": ""}
+           "type_sym": "", "type_subbed": "", "type_direct": "", "cons_subbed": [], "cons_direct": [], "orig_unchanged": True, "raised": "", "py_equal": True}
 
     def nm_key(k):
         return [x if (isinstance(x, int) and not isinstance(x, bool) and case["kind"] == "reduce") else names.name(x) for x in k]
@@ -96,11 +120,19 @@ def run_case(case, cid):
             S = build(case, lam)
             snap = {tuple(k): v for k, v in dict.items(S)}
             snap_cons = copy.deepcopy(S.constraints) if hasattr(S, "constraints") else None
-            Sub = S.subs({lam: cval})
+            subsmap = {lam: cval}
+            if case["kind"] == "symcons":
+                subsmap[sympy.Symbol("s")] = cval
+            Sub = S.subs(subsmap)
             Dn = build(case, cval)
         rec["orig_unchanged"] = ({tuple(k): v for k, v in dict.items(S)} == snap and
                                  (snap_cons is None or S.constraints == snap_cons))
         rec["type_sym"], rec["type_subbed"], rec["type_direct"] = type(S).__name__, type(Sub).__name__, type(Dn).__name__
+        # the library's own notion of "the same model": Python equality of the two objects and of their recorded constraints
+        try:
+            rec["py_equal"] = bool(Sub == Dn) and (not hasattr(Dn, "constraints") or bool(Sub.constraints == Dn.constraints))
+        except Exception:
+            rec["py_equal"] = False
         # symbolic coefficients as affine pairs
         pairs, affine = [], True
         for k, v in dict.items(S):
